@@ -36,7 +36,7 @@ def run(chk, ctx):
                 if to != WORK:
                     continue
                 hook = it.hooks.get("load_kind")
-                if hook and hook(it, rec, st) == "A":
+                if hook and hook(it, rec, st) in ("A", "?") and run_.owner != "RevolveCheckpointSchedule":
                     chk.note(f"{cons}: adjoint-dependency checkpoint load, no forward state defined (exempt from N-LOAD)")
                     continue
                 if is_lin(x):
